@@ -21,13 +21,18 @@ RULES = {
     "guard admitting dtypes with a different number of elements per byte",
     "R5": "sibling decoders: TensorProtoTensor.numpy and .tobytes accept the same dtype set per storage field; "
     "tobytes/tofile of a class obtain bytes from the same builder",
+    "R8": "source/destination offsets stay apart in ExternalTensor.tofile: positions given to the destination handle "
+    "(seek, offset_dst=) derive from the destination's own tell() and never from the tensor's offset in its data file; "
+    "positions given to the source handle (seek, offset_src=) derive from the tensor's offset and never from the "
+    "destination's position - otherwise the bytes or the following writes land at a position that depends on where the "
+    "tensor happens to live in its data file",
     "R7": "logical element order: every flattening / reshaping / byte-producing array call on the tensor byte paths "
     "(ravel, flatten, reshape, tobytes, resize) uses row-major order - no order= other than 'C' - so elements and bytes "
     "follow the declared shape, not the array's memory layout",
     "R6": "packing constants: masks are ((1<<K)-1) shifted by multiples of K, shifts are multiples of K below 8, "
     "strides and padding moduli are 8/K in each helper",
 }
-FLOORS = {"R1": 120, "R2": 4, "R3": 8, "R4": 1, "R5": 6, "R6": 20, "R7": 30}
+FLOORS = {"R1": 120, "R2": 4, "R3": 8, "R4": 1, "R5": 6, "R6": 20, "R7": 30, "R8": 4}
 EXPLANATION = (
     "Evaluates the enum and table literals of _enums/_core/tensor_adapters with ast only and compares them with "
     "each other; derives the sub-byte classes from _BITWIDTH_MAP and checks every storage guard, packing-helper "
@@ -430,14 +435,30 @@ def rule_r4(ctx):
                       f"element count is scaled by {k} under a guard admitting {sorted(w)}-bit types "
                       f"({sorted(per_byte)} elements per byte): wrong byte count for some of them",
                       how="elements-per-byte of every admitted width equals the literal factor")
-    # sub-byte readers that size their buffer from nbytes are width-agnostic: record them
+    # sub-byte readers that size their buffer from nbytes are width-agnostic: record them.  The read size is whatever
+    # flows into the `count=` argument of the buffer read (np.frombuffer / np.fromfile); its definitions under a guard
+    # admitting sub-byte widths must mention .nbytes or be width-homogeneous arithmetic.
     et = ctx.repo.func("onnx_ir._core:ExternalTensor._load")
-    uses_nbytes = any(isinstance(n, ast.Assign) and norm(n.targets[0]) == "count" and "nbytes" in norm(n.value) for n in ast.walk(et.node))
-    counts = [n for n in ast.walk(et.node) if isinstance(n, ast.Assign) and norm(n.targets[0]) == "count"]
+    reads = [c for c in ast.walk(et.node) if isinstance(c, ast.Call) and (dotted_of(c.func) or "").split(".")[-1] in ("frombuffer", "fromfile")]
+    ctx.require(bool(reads), "ExternalTensor._load: buffer read (np.frombuffer) not found")
+    ok, seen = True, 0
+    for c in reads:
+        cnt = next((k.value for k in c.keywords if k.arg == "count"), c.args[2] if len(c.args) > 2 else None)
+        defs = [cnt] if cnt is not None and not isinstance(cnt, ast.Name) else []
+        if isinstance(cnt, ast.Name):
+            defs = [n.value for n in ast.walk(et.node) if isinstance(n, ast.Assign) and any(isinstance(t, ast.Name) and t.id == cnt.id for t in n.targets)]
+        for d in defs:
+            w = _controlling_widths(d, bw)
+            if w is None or not any(x < 8 for x in w):
+                continue
+            seen += 1
+            uses_nbytes = any(isinstance(x, ast.Attribute) and x.attr == "nbytes" for x in ast.walk(d))
+            homogeneous = [r for r in _scan_r4(et.node, bw) if any(r[0] is y for y in ast.walk(d))]
+            ok = ok and (uses_nbytes or (bool(homogeneous) and all(r[3] for r in homogeneous)))
     ctx.check("R4", "ExternalTensor._load sizes the packed read from nbytes or a width-homogeneous expression",
-              uses_nbytes or all(ok for _, _, _, ok in _scan_r4(et.node, bw)) and bool(counts), et, et.node,
+              ok and seen >= 1, et, et.node,
               "the packed byte count of an external sub-byte tensor is not derived from its bit width",
-              how="`count` assignment under the sub-byte guard", nontrivial=True)
+              how="definitions of the buffer read's `count=` argument under the sub-byte guard", nontrivial=True)
 
 
 def _field_sets(f: FuncInfo):
@@ -609,8 +630,62 @@ def rule_r7(ctx):
     ctx.require(n_sites >= 30, f"only {n_sites} order-sensitive array calls found on the tensor byte paths")
 
 
+def _taints(f, e, dst_handle: str, depth=0, seen=None) -> set[str]:
+    """{'SRC','DST'} taints of expression e through the locals of f."""
+    seen = seen if seen is not None else set()
+    out = set()
+    for x in ast.walk(e):
+        if isinstance(x, ast.Attribute) and x.attr in ("_offset", "offset") and norm(x.value) == f.params[0]:
+            out.add("SRC")
+        if isinstance(x, ast.Call) and isinstance(x.func, ast.Attribute) and x.func.attr == "tell" and norm(x.func.value) == dst_handle:
+            out.add("DST")
+        if isinstance(x, ast.Name) and x.id not in seen and depth < 4:
+            seen.add(x.id)
+            for n in own_nodes(f.node):
+                if isinstance(n, (ast.Assign, ast.AnnAssign)) and getattr(n, "value", None) is not None:
+                    tg = n.targets if isinstance(n, ast.Assign) else [n.target]
+                    if any(isinstance(t, ast.Name) and t.id == x.id for t in tg):
+                        out |= _taints(f, n.value, dst_handle, depth + 1, seen)
+    return out
+
+
+def rule_r8(ctx):
+    f = ctx.repo.func("onnx_ir._core:ExternalTensor.tofile")
+    ctx.require(len(f.params) >= 2, "ExternalTensor.tofile: destination parameter not found")
+    dst = f.params[1]
+    srcs = {it.optional_vars.id for w in own_nodes(f.node) if isinstance(w, ast.With) for it in w.items
+            if isinstance(it.optional_vars, ast.Name) and isinstance(it.context_expr, ast.Call) and dotted_of(it.context_expr.func) == "open"}
+    ctx.require(bool(srcs), "ExternalTensor.tofile: source handle (with open(...) as …) not found")
+    sites = []
+    for c in (x for x in own_nodes(f.node) if isinstance(x, ast.Call)):
+        if isinstance(c.func, ast.Attribute) and c.func.attr == "seek" and c.args:
+            recv = norm(c.func.value)
+            if recv == dst:
+                sites.append((c, c.args[0], "DST", f"{dst}.seek"))
+            elif recv in srcs:
+                sites.append((c, c.args[0], "SRC", f"{recv}.seek"))
+        for k in c.keywords:
+            if k.arg == "offset_dst":
+                sites.append((c, k.value, "DST", "offset_dst="))
+            elif k.arg == "offset_src":
+                sites.append((c, k.value, "SRC", "offset_src="))
+    for c, e, want, label in sites:
+        t = _taints(f, e, dst)
+        other = "SRC" if want == "DST" else "DST"
+        ok = want in t and other not in t
+        ctx.check("R8", f"ExternalTensor.tofile: {label}({norm(e)}) is a {'destination' if want == 'DST' else 'source'} position", ok, f, c,
+                  f"`{norm(e)}` is used as a position of the {'destination' if want == 'DST' else 'source'} but derives from "
+                  f"{'the tensor offset in its data file' if want == 'DST' else 'the destination position'} "
+                  f"(taints {sorted(t)}): after tofile() the {'destination file position' if want == 'DST' else 'source read position'} is wrong, so "
+                  "whatever is written next lands at the wrong place",
+                  how="data dependence of the position argument: self.offset (source) vs <destination>.tell() (destination)",
+                  construct=f"{label} {norm(e)}")
+    ctx.require(len(sites) >= 4, f"only {len(sites)} position arguments found in ExternalTensor.tofile")
+
+
 def run(ctx):
     rule_r7(ctx)
+    rule_r8(ctx)
     rule_r1(ctx)
     rule_r2(ctx)
     rule_r3(ctx)
